@@ -4,7 +4,11 @@ The real composition functions run on generated records; every result (descripto
 with the dictionary model in verif/refmodels_c15.py, and every input is observed before and after (originals unchanged)."""
 from __future__ import annotations
 
+import io
+import os
 import random
+import shutil
+import tempfile
 
 from .. import gen, observe, probes
 from .. import refmodels_c15 as model
@@ -14,14 +18,20 @@ ID = "C15"
 TITLE = "record composition precedence"
 LEVEL = "exploration"
 RULE = (
-    "cases = seeded recipes of seven kinds over descriptors drawn from a small pool of field names (so names overlap, "
+    "cases = seeded recipes of nine kinds over descriptors drawn from a small pool of field names (so names overlap, "
     "incl. 'ts', 'ts_description', keywords) and all serialisable field types with pool values: extend (1-4 records or "
     "grouped records x replace x rename through extend_record and merge_record_descriptors), ts (per-timestamp "
     "expansion of a record with 0-4 datetime fields in any position under any name, None timestamps, non-datetime fields "
     "named ts/ts_description, grouped inputs), grouped (flat view of 1-4 members incl. nested groups), gshadow (member "
     "fields named like GroupedRecord instance attributes), greplace/replace (_replace with 1-3 named fields, unknown "
     "names), project (RecordFieldRewriter with fields/exclude lists incl. unknown, duplicated and metadata names), "
-    "fromdict (init_from_dict / init_from_record with unknown keys).  Non-trivial = the composition involves at least "
+    "fromdict (init_from_dict / init_from_record with unknown keys), seq (ONE long-lived RecordFieldRewriter and the process-wide "
+    "merge/extend caches over an interleaved sequence v1,v2,v1,v2 of records whose descriptors share one type name but differ in "
+    "fields or field types, then per-timestamp expansion of them).  Every kind is preceded (65%) by a random prefix of 1-4 other "
+    "library features used on the inputs and their descriptors (get_all_fields, definition, getfields, fields, identifier/hash, "
+    "GroupedRecord membership, repr, hash/==, _asdict/_pack, a prior expansion / rewrite / extend, a write through the stream, line, "
+    "text, csv, json, sqlite, avro writers) - none may change the deep observation, and the composition must equal the model as on "
+    "fresh descriptors.  Non-trivial = the composition involves at least "
     "one collision / timestamp field / shared member field / named field; distinct = distinct (kind, descriptor "
     "shapes, options).  Oracle: normalised deep observation of the result == independent ordered-dict model; deep "
     "observation of every input before == after."
@@ -52,7 +62,7 @@ ANCHORS = [
     "flow.record.stream:RecordFieldRewriter.rewrite",
 ]
 
-KINDS = [("extend", 30), ("ts", 25), ("grouped", 10), ("gshadow", 2), ("greplace", 8), ("replace", 7), ("project", 12), ("fromdict", 6)]
+KINDS = [("extend", 27), ("ts", 23), ("grouped", 9), ("gshadow", 2), ("greplace", 8), ("replace", 7), ("project", 11), ("fromdict", 5), ("seq", 8)]
 NAMES = ["a", "b", "c", "x1", "value", "ts", "ts_description", "id", "Zq", "class", "from", "long_field_name_0123456789"]
 RECNAMES = ["t/a", "t/b", "x", "same/name", "same/name", "deep/er/name"]
 # attributes a GroupedRecord instance/class carries itself: a member field of that name is hidden by them
@@ -63,14 +73,17 @@ TYPES = [t for t in gen.ALL_FIELD_TYPES]
 
 def setup(ctx):
     ctx.state["reach"] = probes.Reach(ANCHORS)
+    ctx.state["tmp"] = tempfile.mkdtemp(prefix="frv-c15-", dir=os.environ.get("VERIF_TMP", "/var/tmp"))
+    ctx.state["nfile"] = 0
 
 
 def teardown(ctx):
     ctx.state["reach"].stop()
+    shutil.rmtree(ctx.state["tmp"], ignore_errors=True)
 
 
 def generate(ctx):
-    total = ctx.scale(1500, 6500)
+    total = ctx.scale(1200, 6500)
     weights = [w for _, w in KINDS]
     rng = random.Random(subseed("c15", "plan", ctx.seed, ctx.shard))
     for i in range(total):
@@ -218,6 +231,7 @@ def compare(ctx, what, got, exp, detail, skip_slots=()):
     if got == exp:
         return True
     d = dict(detail)
+    d["warm_up_operations"] = ctx.state.get("warm_ops")
     d["diff(real vs model)"] = observe.first_diff(got, exp)
     d["real"] = got
     d["model"] = exp
@@ -225,11 +239,117 @@ def compare(ctx, what, got, exp, detail, skip_slots=()):
     return False
 
 
+# ---- history: other library features used on the records / descriptors before the composition ------------
+WARM_OPS = [("get_all_fields", 3), ("definition", 2), ("getfields", 3), ("fields", 1), ("identifier", 1), ("grouped", 2), ("repr", 2),
+            ("hash_eq", 2), ("asdict_pack", 1), ("expand", 1), ("rewriter", 1), ("extend", 1), ("write:stream", 2), ("write:line", 1),
+            ("write:text", 1), ("write:csvfile", 1), ("write:jsonfile", 1), ("write:sqlite", 1), ("write:avro", 1)]
+
+
+def _descs_of(o):
+    if hasattr(o, "descriptors"):
+        return [o._desc] + [m._desc for m in o.records]
+    return [o._desc]
+
+
+def _warm_one(ctx, rng, op, o):
+    from flow.record import GroupedRecord, RecordWriter, extend_record, iter_timestamped_records
+    from flow.record.stream import RecordFieldRewriter, RecordStreamWriter
+
+    if op == "get_all_fields":
+        for d in _descs_of(o):
+            list(d.get_all_fields().items())
+    elif op == "definition":
+        for d in _descs_of(o):
+            d.definition()
+            d.definition(reserved=False)
+    elif op == "getfields":
+        for d in _descs_of(o):
+            for t in rng.sample(["string", "datetime", "varint", "bytes", "datetime[]"], rng.randint(1, 3)):
+                d.getfields(t)
+    elif op == "fields":
+        for d in _descs_of(o):
+            list(d.fields.values())
+            d.get_required_fields()
+    elif op == "identifier":
+        for d in _descs_of(o):
+            d.identifier, hash(d), d == d, repr(d)
+    elif op == "grouped":
+        g = GroupedRecord("warm/up", [o])
+        g._asdict()
+        repr(g)
+    elif op == "repr":
+        repr(o)
+        str(o)
+    elif op == "hash_eq":
+        o == o  # noqa: B015
+        hash(o)
+    elif op == "asdict_pack":
+        o._asdict()
+        o._pack()
+    elif op == "expand":
+        list(iter_timestamped_records(o))
+    elif op == "rewriter":
+        RecordFieldRewriter([], ["no_such_field_zz"]).rewrite(o)
+    elif op == "extend":
+        extend_record(o, [o])
+    elif op == "write:stream":
+        w = RecordStreamWriter(io.BytesIO())
+        w.write(o)
+        w.flush()
+    elif op.startswith("write:"):
+        scheme = op.split(":", 1)[1]
+        ctx.state["nfile"] += 1
+        path = os.path.join(ctx.state["tmp"], "w%d.%s" % (ctx.state["nfile"], scheme))
+        try:
+            kw = {}
+            if scheme == "line" and rng.random() < 0.6:
+                kw["verbose"] = True
+            if scheme in ("line", "csvfile") and rng.random() < 0.3:
+                kw["exclude"] = ["_generated"]
+            if scheme == "text" and rng.random() < 0.4:
+                kw["format_spec"] = "{_source}|{ts}|{nope}"
+            w = RecordWriter("%s://%s" % (scheme, path), **kw)
+            try:
+                w.write(o)
+                w.flush()
+            finally:
+                w.close()
+        finally:
+            try:
+                os.unlink(path)
+            except OSError:
+                pass
+
+
+def warm_up(ctx, mk, objs):
+    """Random prefix of other library features applied to the inputs (and their descriptors) before the composition.
+    None of them may change a record or descriptor; the composition afterwards is compared with the model as always
+    (the model only sees the deep observation, which reads get_field_tuples() and the slots)."""
+    rng = mk.rng
+    if rng.random() < 0.35:
+        ctx.event("warmup:none")
+        return True
+    pre = [nobs(o) for o in objs]
+    ops = rng.choices([n for n, _ in WARM_OPS], [w for _, w in WARM_OPS], k=rng.randint(1, 4))
+    ctx.state["warm_ops"] = (ctx.state.get("warm_ops") or []) + ops
+    for op in ops:
+        for o in objs:
+            try:
+                _warm_one(ctx, rng, op, o)
+                ctx.event("warmup:" + op)
+            except Exception:  # noqa: BLE001 - failures of those features are other properties' subject
+                ctx.event("warmup_failed:" + op)
+    post = [nobs(o) for o in objs]
+    if post != pre:
+        ctx.violation(None, "a read-only library feature used before the composition changed a record or its descriptor",
+                      detail={"operations": ops, "diff": observe.first_diff(pre, post), "inputs": describe(objs)})
+        return False
+    ctx.event("warmup_cases")
+    return True
+
+
 # ---- kinds -------------------------------------------------------------------------------------------
 def do_extend(ctx, case, mk):
-    from flow.record import extend_record
-    from flow.record.base import merge_record_descriptors
-
     rng = mk.rng
     n = rng.choice([1, 2, 2, 3, 3, 4])
     recs = [mk.rec_or_group(0.1) for _ in range(n)]
@@ -237,27 +357,14 @@ def do_extend(ctx, case, mk):
         recs[-1] = recs[0]  # the same record twice
     replace = rng.random() < 0.5
     name = rng.choice([None, None, "t/renamed", "x"])
-    before = [nobs(r) for r in recs]
-    flat = [model.flat_view(o) for o in before]
-    ctx.ev()
-    try:
-        md = merge_record_descriptors(tuple(r._desc for r in recs), replace, name)
-        e = extend_record(recs[0], recs[1:], replace=replace, name=name)
-    except Exception as ex:  # noqa: BLE001
-        ctx.violation(None, "extend_record / merge_record_descriptors raised %s" % type(ex).__name__,
-                      detail={"exception": repr(ex)[:300], "inputs": describe(recs), "replace": replace, "name": name})
+    if not warm_up(ctx, mk, recs):
         return
-    typed_ok(ctx, e, "extended record")
-    slots_match_descriptor(ctx, e, "extended record", {"inputs": describe(recs), "replace": replace, "name": name})
-    exp_fields = model.merge_fields([model.fields_of(o) for o in flat], replace)
-    exp_name = name if name is not None else flat[0][1]
-    detail = {"inputs": describe(recs), "replace": replace, "name": name}
-    got_md = observe.desc_obs(md)
-    if got_md != [exp_name, [[t, f] for t, f in exp_fields]]:
-        ctx.violation(None, "merge_record_descriptors differs from the ordered-dict model",
-                      detail=dict(detail, real=got_md, model=[exp_name, exp_fields]))
-    compare(ctx, "extend_record differs from the ordered-dict model", nobs(e), observe.normalise(model.extend(before, replace, name)), detail)
-    unchanged(ctx, "extend_record", recs, before)
+    ctx.ev()
+    res = check_extend(ctx, recs, replace, name)
+    if res is None:
+        return
+    e, flat, before = res
+    n = len(recs)
     allnames = [f for o in flat for _, f in model.fields_of(o)]
     overlap = len(allnames) != len(set(allnames))
     types = {}
@@ -276,9 +383,37 @@ def do_extend(ctx, case, mk):
                kind="extend:%s" % ("typediff" if typediff else "plain"))
 
 
-def do_ts(ctx, case, mk):
-    from flow.record import iter_timestamped_records
+def check_extend(ctx, recs, replace, name):
+    """extend_record / merge_record_descriptors on real records against the model.  -> (result, flat obs, obs) or None."""
+    from flow.record import extend_record
+    from flow.record.base import merge_record_descriptors
 
+    before = [nobs(r) for r in recs]
+    flat = [model.flat_view(o) for o in before]
+    try:
+        md = merge_record_descriptors(tuple(r._desc for r in recs), replace, name)
+        e = extend_record(recs[0], recs[1:], replace=replace, name=name)
+    except Exception as ex:  # noqa: BLE001
+        ctx.violation(None, "extend_record / merge_record_descriptors raised %s" % type(ex).__name__,
+                      detail={"exception": repr(ex)[:300], "inputs": describe(recs), "replace": replace, "name": name,
+                              "warm_up_operations": ctx.state.get("warm_ops")})
+        return None
+    typed_ok(ctx, e, "extended record")
+    slots_match_descriptor(ctx, e, "extended record", {"inputs": describe(recs), "replace": replace, "name": name})
+    exp_fields = model.merge_fields([model.fields_of(o) for o in flat], replace)
+    exp_name = name if name is not None else flat[0][1]
+    detail = {"inputs": describe(recs), "replace": replace, "name": name}
+    got_md = observe.desc_obs(md)
+    if got_md != [exp_name, [[t, f] for t, f in exp_fields]]:
+        ctx.violation(None, "merge_record_descriptors differs from the ordered-dict model",
+                      detail=dict(detail, real=got_md, model=[exp_name, exp_fields]))
+    if compare(ctx, "extend_record differs from the ordered-dict model", nobs(e), observe.normalise(model.extend(before, replace, name)), detail):
+        ctx.event("extend_checked")
+    unchanged(ctx, "extend_record", recs, before)
+    return e, flat, before
+
+
+def do_ts(ctx, case, mk):
     rng = mk.rng
     if rng.random() < 0.1:
         rec = mk.grouped(pool=[n for n in NAMES if n not in GROUPED_OWN_ATTRS])
@@ -299,9 +434,18 @@ def do_ts(ctx, case, mk):
                     t = rng.choice(["string", "datetime[]", "varint"])
                 fields.append((t, fn))
         rec = mk.record(mk.descriptor(fields=fields))
-    before = [nobs(rec)]
+    if not warm_up(ctx, mk, [rec]):
+        return
     ctx.ev()
-    detail = {"input": describe([rec]), "fields": model.fields_of(before[0])}
+    check_ts(ctx, rec)
+
+
+def check_ts(ctx, rec):
+    """iter_timestamped_records on a real record against the model."""
+    from flow.record import iter_timestamped_records
+
+    before = [nobs(rec)]
+    detail = {"input": describe([rec]), "fields": model.fields_of(before[0]), "warm_up_operations": ctx.state.get("warm_ops")}
     try:
         out = list(iter_timestamped_records(rec))
     except Exception as ex:  # noqa: BLE001
@@ -385,6 +529,8 @@ def do_grouped(ctx, case, mk, shadow=False):
         return
     ctx.ev()
     members = list(g.records)
+    if not warm_up(ctx, mk, [g] + members):
+        return
     before = nobs(g)
     mbefore = [nobs(m) for m in members]
     detail = {"members": describe(members), "group": before[1]}
@@ -409,6 +555,8 @@ def do_greplace(ctx, case, mk):
     pool = [n for n in NAMES if n not in GROUPED_OWN_ATTRS]
     g = mk.grouped(nmembers=rng.choice([1, 2, 2, 3, 4]), pool=pool, nested=False)
     members = list(g.records)
+    if not warm_up(ctx, mk, [g]):
+        return
     before = nobs(g)
     flat = model.flat_view(before)
     cand = [n for _, n in model.fields_of(flat)]
@@ -463,6 +611,8 @@ def do_replace(ctx, case, mk):
     desc = mk.descriptor(nfields=rng.choice([1, 2, 3, 4, 5, 7]))
     rec = mk.record(desc)
     sib = mk.record(desc)
+    if not warm_up(ctx, mk, [rec]):
+        return
     before = nobs(rec)
     cand = [n for _, n in model.fields_of(before)]
     chosen = rng.sample(cand, min(len(cand), rng.choice([1, 1, 2, 3])))
@@ -499,6 +649,8 @@ def do_project(ctx, case, mk):
 
     rng = mk.rng
     rec = mk.rec_or_group(0.12, nfields=rng.choice([1, 2, 3, 4, 5, 7]))
+    if not warm_up(ctx, mk, [rec]):
+        return
     before = nobs(rec)
     have = [n for _, n in model.fields_of(before)]
 
@@ -525,10 +677,26 @@ def do_project(ctx, case, mk):
     except Exception as ex:  # noqa: BLE001
         ctx.violation(None, "RecordFieldRewriter.rewrite raised %s" % type(ex).__name__, detail=dict(detail, exception=repr(ex)[:300]))
         return
+    ok = check_projection(ctx, (out, out2), before, fields, exclude, detail)
+    if ok:
+        ctx.event("project_checked")
+    unchanged(ctx, "RecordFieldRewriter.rewrite", [rec], [before])
+    unknown = any(f not in have and not f.startswith("_") for f in fields + exclude)
+    dup = len(fields) != len(set(fields)) or len(exclude) != len(set(exclude))
+    ctx.cell("project", "fields" if fields else "nofields", "exclude" if exclude else "noexclude",
+             "unknown" if unknown else "known", "dup" if dup else "nodup")
+    if fields or exclude:
+        ctx.nontrivial("project", before[2] if model.is_rec(before) else [m[2] for m in before[2]], fields, exclude)
+    ctx.sample({"kind": "project", "record": describe([rec]), "fields": fields, "exclude": exclude, "result": describe([out])},
+               kind="project:%s%s" % ("F" if fields else "", "X" if exclude else ""))
+
+
+def check_projection(ctx, outs, before, fields, exclude, detail):
+    """Projected real record(s) of ONE input against the model; the library's descriptor is compared exactly."""
     exp = observe.normalise(model.project(before, fields, exclude))
     skip = tuple(m for m in model.META if m in exclude)
     ok = True
-    for o in (out, out2):
+    for o in outs:
         typed_ok(ctx, o, "projected record")
         got = nobs(o)
         ok = slots_match_descriptor(ctx, o, "projected record", detail) and ok
@@ -546,23 +714,98 @@ def do_project(ctx, case, mk):
             ok = False
             continue
         ok = compare(ctx, "field projection / exclusion differs from the model", got, exp, detail, skip_slots=skip) and ok
-    if ok:
-        ctx.event("project_checked")
-    unchanged(ctx, "RecordFieldRewriter.rewrite", [rec], [before])
-    unknown = any(f not in have and not f.startswith("_") for f in fields + exclude)
-    dup = len(fields) != len(set(fields)) or len(exclude) != len(set(exclude))
-    ctx.cell("project", "fields" if fields else "nofields", "exclude" if exclude else "noexclude",
-             "unknown" if unknown else "known", "dup" if dup else "nodup")
-    if fields or exclude:
-        ctx.nontrivial("project", before[2] if model.is_rec(before) else [m[2] for m in before[2]], fields, exclude)
-    ctx.sample({"kind": "project", "record": describe([rec]), "fields": fields, "exclude": exclude, "result": describe([out])},
-               kind="project:%s%s" % ("F" if fields else "", "X" if exclude else ""))
+    return ok
+
+
+ALT_TYPES = {"string": ["varint", "bytes", "datetime", "string[]"], "varint": ["string", "float", "uint32"], "datetime": ["string", "varint"],
+             "float": ["string", "varint"], "bytes": ["string"]}
+
+
+def do_seq(ctx, case, mk):
+    """One long-lived rewriter (and the process-wide merge / extend caches) over an interleaved sequence of records whose
+    descriptors share ONE record-type name but differ in fields or field types."""
+    from flow.record.stream import RecordFieldRewriter
+
+    rng = mk.rng
+    name = rng.choice(RECNAMES)
+    base = [(rng.choice(["string", "varint", "datetime", "float", "bytes", "string"]) if rng.random() < 0.7 else mk.ftype(), n)
+            for n in mk.names(rng.choice([2, 3, 4, 5]))]
+    versions = [base]
+    spare = [n for n in NAMES if n not in [x for _, x in base]]
+    for _ in range(rng.choice([1, 1, 2])):
+        v = list(versions[-1])
+        for _ in range(rng.choice([1, 1, 2])):
+            i = rng.randrange(len(v))
+            t, n = v[i]
+            v[i] = (rng.choice(ALT_TYPES.get(t, ["string", "varint"])), n)
+        if len(v) > 1 and rng.random() < 0.4:
+            v.pop(rng.randrange(len(v)))
+        if spare and rng.random() < 0.6:
+            v.insert(rng.randint(0, len(v)), (mk.ftype(), spare.pop(rng.randrange(len(spare)))))
+        if rng.random() < 0.2:
+            rng.shuffle(v)
+        if v not in versions:
+            versions.append(v)
+    descs = [mk.descriptor(fields=v, name=name) for v in versions]
+    length = rng.choice([4, 5, 6, 8])
+    order = [i % len(descs) for i in range(length)] if rng.random() < 0.6 else [rng.randrange(len(descs)) for _ in range(length)]
+    recs = [mk.record(descs[i]) for i in order]
+    if not warm_up(ctx, mk, recs):
+        return
+    ctx.ev()
+    union = []
+    for v in versions:
+        for _, n in v:
+            if n not in union:
+                union.append(n)
+
+    def pick():
+        out = rng.sample(union, rng.randint(0, len(union)))
+        if rng.random() < 0.25:
+            out.insert(rng.randint(0, len(out)), rng.choice(["nope", "_source"]))
+        if out and rng.random() < 0.2:
+            out.insert(rng.randint(0, len(out)), rng.choice(out))
+        return out
+
+    fields = pick() if rng.random() < 0.7 else []
+    exclude = pick() if (rng.random() < 0.5 or not fields) else []
+    if not fields and not exclude:
+        exclude = [union[0]]
+    rw = RecordFieldRewriter(list(fields), list(exclude))
+    for i, r in enumerate(recs):
+        before = nobs(r)
+        detail = {"record": describe([r]), "fields": fields, "exclude": exclude, "position_in_sequence": i, "versions_of_type": versions,
+                  "order": order}
+        try:
+            out = rw.rewrite(r)
+        except Exception as ex:  # noqa: BLE001
+            ctx.violation(None, "RecordFieldRewriter.rewrite raised %s" % type(ex).__name__, detail=dict(detail, exception=repr(ex)[:300]))
+            return
+        if check_projection(ctx, (out,), before, fields, exclude, detail):
+            ctx.event("seq_projections_checked")
+        unchanged(ctx, "RecordFieldRewriter.rewrite", [r], [before])
+    # the process-wide caches of merge_record_descriptors / extend_record: same names, different fields, varying order
+    extra = mk.record(mk.descriptor(name=rng.choice([name, "t/other"])))
+    for _ in range(rng.choice([3, 4, 6])):
+        k = rng.choice([2, 2, 3])
+        chosen = [rng.choice(recs + [extra]) for _ in range(k)]
+        if check_extend(ctx, chosen, rng.random() < 0.5, rng.choice([None, None, "t/renamed"])) is not None:
+            ctx.event("seq_extends_checked")
+    for r in rng.sample(recs, min(len(recs), 3)):
+        check_ts(ctx, r)
+        ctx.event("seq_expansions_checked")
+    ctx.cell("seq", "versions=%d" % len(descs), "fields" if fields else "nofields", "exclude" if exclude else "noexclude")
+    if len(descs) > 1:
+        ctx.nontrivial("seq", versions, order, fields, exclude)
+    ctx.sample({"kind": "seq", "type": name, "versions": versions, "order": order, "fields": fields, "exclude": exclude}, kind="seq")
 
 
 def do_fromdict(ctx, case, mk):
     rng = mk.rng
     desc = mk.descriptor(nfields=rng.choice([1, 2, 3, 4, 5]))
     sib = mk.record(desc)
+    if not warm_up(ctx, mk, [sib]):
+        return
     sobs = nobs(sib)
     fields = model.fields_of(sobs)
     via_record = rng.random() < 0.45
@@ -634,12 +877,13 @@ def do_fromdict(ctx, case, mk):
 
 DISPATCH = {
     "extend": do_extend, "ts": do_ts, "grouped": do_grouped, "gshadow": lambda c, k, m: do_grouped(c, k, m, shadow=True),
-    "greplace": do_greplace, "replace": do_replace, "project": do_project, "fromdict": do_fromdict,
+    "greplace": do_greplace, "replace": do_replace, "project": do_project, "fromdict": do_fromdict, "seq": do_seq,
 }
 
 
 def execute(ctx, case):
     mk = Maker(case["s"], thorough=not ctx.quick)
+    ctx.state["warm_ops"] = None
     ctx.event("kind:" + case["k"])
     DISPATCH[case["k"]](ctx, case, mk)
 
@@ -651,5 +895,7 @@ def finish(ctx):
     for q in ANCHORS:
         ctx.require(ctx.reach.get(q, 0) > 0, "anchor %s was never entered" % q)
     for ev in ("ts_records_checked", "grouped_slots_checked", "greplace_checked", "replace_checked", "project_checked",
-               "fromdict_checked", "fromrecord_checked", "inputs_observed_unchanged"):
+               "fromdict_checked", "fromrecord_checked", "inputs_observed_unchanged", "extend_checked", "seq_projections_checked",
+               "seq_extends_checked", "seq_expansions_checked", "warmup_cases", "warmup:get_all_fields", "warmup:getfields", "warmup:grouped",
+               "warmup:write:stream", "warmup:hash_eq"):
         ctx.require(ctx.events.get(ev, 0) > 0, "monitor %s never ran" % ev)
